@@ -24,7 +24,7 @@ import (
 // are resolved through doltdb.NewCommitSpec + DoltDB.Resolve and compared with the model parent walk.
 
 func c19(c *rig.Ctx) {
-	c.Rule("C19: the DAGs of C18 (same generator and seeds) built under refs/heads/*; all ordered pairs (incl. a==b) for merge base and fast-forward; per commit several random ancestor-spec chains over ~, ~n, ^, ^1, ^2 (plus the rejected forms ^0, ^3, ~0) on hash, branch-name and HEAD bases; a DAG is distinct by its parent-list shape and non-trivial when it contains a merge")
+	c.Rule("C19: the DAGs of C18 (same generator and seeds) built under refs/heads/*; all ordered pairs (incl. a==b) for merge base and fast-forward; per commit several random ancestor-spec chains over ~, ~n, ^, ^1, ^2 (plus the rejected forms ^0, ^3, ~0) on hash, branch-name and HEAD bases; a DAG is distinct by its parent-list shape and non-trivial when it contains a merge; plus the TALL family (see C18): all ordered pairs of ≤ ~76 boundary commits (heights around 1, 250–258, 509–514, forks, side branches, merges, tips) and 300 PRNG pairs in both orders per graph, fast-forwards and ~n specs across the 256-multiples")
 	c.Assume("C19: height in 'no common ancestor is higher' is the model height 1+max(parents); C18 decides that stored heights equal it")
 	c.Assume("C19: ancestor specs with a parent number other than 1 or 2 (^0, ^3, …) are rejected by the parser (ErrInvalidAncestorSpec); a rejection selects no commit and is counted, not reported")
 	n := c.Pick(300, 20000)
@@ -51,6 +51,7 @@ func c19(c *rig.Ctx) {
 	}
 	close(jobs)
 	wg.Wait()
+	c19Tall(c, total, &mu)
 	for _, k := range sortedKeys(total) {
 		c.Count(k, total[k])
 	}
@@ -59,6 +60,8 @@ func c19(c *rig.Ctx) {
 	c.Require(total["c19.pairs.base_is_proper_ancestor_of_both"] > 0, "no diverged pair was explored")
 	c.Require(total["c19.spec.resolved"] > 0 && total["c19.spec.second_parent_steps"] > 0 && total["c19.spec.walk_off_graph"] > 0,
 		"ancestor specs: need resolved chains, ^2 steps and chains that leave the graph")
+	c.Require(total["c19.pairs.straddling_a_multiple_of_256"] > 0 && total["c19.ff.real_fastforward_straddling_256"] > 0 && total["c19.tall.max_height"] >= 512,
+		"tall graphs: need pairs and real fast-forwards straddling a multiple of 256 and a graph reaching height 512")
 	c.Require(total["c19.ff.real_fastforward_ok"] > 0 && total["c19.ff.real_fastforward_refused"] > 0, "real FastForward: need accepted and refused cases")
 }
 
@@ -101,116 +104,23 @@ func c19One(c *rig.Ctx, i int) map[string]int {
 		hc[k], err = doltdb.NewCommit(bg, ddb.ValueReadWriter(), ddb.NodeStore(), dc2[k])
 		rig.Must(err)
 	}
-	wit := func(a, bb int, extra map[string]any) map[string]any {
-		w := map[string]any{"dag": m.C, "a": a, "b": bb, "heights": m.height}
-		for k, v := range extra {
-			w[k] = v
-		}
-		return w
-	}
-	res := make([][]int, len(m.C)) // res[a][b] = index of returned base, -1 none, -2 error
+	e := &c19Env{c: c, name: name, m: m, b: b, rdb: rdb, rdb2: rdb2, ddb: ddb, dc: dc, dc2: dc2, hc: hc, cnt: cnt, dagWit: m.C, res: map[[2]int]int{}}
 	for a := range m.C {
-		res[a] = make([]int, len(m.C))
 		for bb := range m.C {
-			res[a][bb] = -2
-			cnt["c19.pairs"]++
-			best := m.bestCommon(a, bb)
-			h, ok, err := datas.FindCommonAncestor(bg, dc[a], dc[bb], rdb.vs, rdb.vs, rdb.ns, rdb.ns)
-			if err != nil {
-				c.Violation("c19/merge-base/error", fmt.Sprintf("%s: FindCommonAncestor(%d,%d) failed: %v", name, a, bb, err), wit(a, bb, nil))
-				continue
-			}
-			switch {
-			case len(best) == 0:
-				cnt["c19.pairs.none_expected"]++
-			case len(best) > 1:
-				cnt["c19.pairs.multiple_best_candidates"]++
-			}
-			if len(best) > 0 && best[0] != a && best[0] != bb {
-				cnt["c19.pairs.base_is_proper_ancestor_of_both"]++
-			}
-			if !ok {
-				res[a][bb] = -1
-				if len(best) > 0 {
-					c.Violation("c19/merge-base/none-but-exists", fmt.Sprintf("%s: FindCommonAncestor(%d,%d) found none; common ancestors of maximal height: %v", name, a, bb, best), wit(a, bb, map[string]any{"best": best}))
-				}
-			} else {
-				x, known := b.idx[h]
-				switch {
-				case !known:
-					c.Violation("c19/merge-base/not-a-commit-of-the-graph", fmt.Sprintf("%s: FindCommonAncestor(%d,%d) = %s which is no commit of the graph", name, a, bb, h), wit(a, bb, nil))
-				case !(m.isAnc(x, a) && m.isAnc(x, bb)):
-					res[a][bb] = x
-					c.Violation("c19/merge-base/not-common-ancestor", fmt.Sprintf("%s: FindCommonAncestor(%d,%d) = %d which is not an ancestor of both", name, a, bb, x), wit(a, bb, map[string]any{"got": x, "best": best}))
-				case m.height[x] != m.height[best[0]]:
-					res[a][bb] = x
-					c.Violation("c19/merge-base/not-highest", fmt.Sprintf("%s: FindCommonAncestor(%d,%d) = %d (height %d) but common ancestor(s) %v have height %d", name, a, bb, x, m.height[x], best, m.height[best[0]]), wit(a, bb, map[string]any{"got": x, "best": best}))
-				default:
-					res[a][bb] = x
-				}
-			}
-			// second run through a fresh handle: the choice is deterministic
-			h2, ok2, err2 := datas.FindCommonAncestor(bg, dc2[a], dc2[bb], rdb2.vs, rdb2.vs, rdb2.ns, rdb2.ns)
-			if err2 != nil || ok2 != ok || h2 != h {
-				c.Violation("c19/merge-base/nondeterministic", fmt.Sprintf("%s: FindCommonAncestor(%d,%d) = (%s,%v) and on a second run through a fresh handle (%s,%v,%v)", name, a, bb, h, ok, h2, ok2, err2), wit(a, bb, nil))
-			}
-			// doltdb layer
-			oc, err := doltdb.GetCommitAncestor(bg, hc[a], hc[bb])
-			switch {
-			case err != nil && errors.Is(err, doltdb.ErrNoCommonAncestor):
-				if ok {
-					c.Violation("c19/doltdb-merge-base/differs", fmt.Sprintf("%s: doltdb.GetCommitAncestor(%d,%d) reports none, datas.FindCommonAncestor %s", name, a, bb, idxName(b, h)), wit(a, bb, nil))
-				}
-			case err != nil:
-				c.Violation("c19/doltdb-merge-base/error", fmt.Sprintf("%s: doltdb.GetCommitAncestor(%d,%d) failed: %v", name, a, bb, err), wit(a, bb, nil))
-			default:
-				if !ok || oc.Addr != h {
-					c.Violation("c19/doltdb-merge-base/differs", fmt.Sprintf("%s: doltdb.GetCommitAncestor(%d,%d) = %s, datas.FindCommonAncestor = (%s,%v)", name, a, bb, idxName(b, oc.Addr), idxName(b, h), ok), wit(a, bb, nil))
-				}
-				cnt["c19.pairs.doltdb_compared"]++
-			}
-			// fast-forward predicate
-			can, err := hc[a].CanFastForwardTo(bg, hc[bb])
-			want := m.isAnc(a, bb)
-			if err != nil && !(errors.Is(err, doltdb.ErrUpToDate) || errors.Is(err, doltdb.ErrIsAhead) || errors.Is(err, doltdb.ErrNoCommonAncestor)) {
-				c.Violation("c19/can-ff/error", fmt.Sprintf("%s: CanFastForwardTo(%d→%d) failed: %v", name, a, bb, err), wit(a, bb, nil))
-			} else if can != want {
-				c.Violation("c19/can-ff/wrong", fmt.Sprintf("%s: CanFastForwardTo(%d→%d) = %v (err %v) but ancestor relation says %v", name, a, bb, can, err, want), wit(a, bb, nil))
-			}
-			if want {
-				cnt["c19.ff.can_expected_true"]++
-			} else {
-				cnt["c19.ff.can_expected_false"]++
-			}
+			e.pair(a, bb)
 		}
 	}
-	// symmetry
-	for a := range m.C {
-		for bb := a + 1; bb < len(m.C); bb++ {
-			if res[a][bb] != -2 && res[bb][a] != -2 && res[a][bb] != res[bb][a] {
-				c.Violation("c19/merge-base/asymmetric", fmt.Sprintf("%s: FindCommonAncestor(%d,%d) = %d but FindCommonAncestor(%d,%d) = %d", name, a, bb, res[a][bb], bb, a, res[bb][a]), wit(a, bb, nil))
-			}
-			cnt["c19.pairs.symmetry_checked"]++
-		}
-	}
+	e.symmetry()
 
 	// DoltDB.CanFastForward through branch refs, and the real FastForward on a scratch branch
 	heads := sortedKeys(b.heads)
 	for t := 0; t < 30 && len(heads) > 0; t++ {
 		id := heads[r.Intn(len(heads))]
-		a := b.heads[id]
 		bb := r.Intn(len(m.C))
-		if t%2 == 0 && m.anc[a].count() > 0 { // bias to related pairs
-			bb = pickRelated(r, m, a)
+		if t%2 == 0 && m.anc[b.heads[id]].count() > 0 { // bias to related pairs
+			bb = pickRelated(r, m, b.heads[id])
 		}
-		can, err := ddb.CanFastForward(bg, ref.NewBranchRef(id), hc[bb])
-		want := m.isAnc(a, bb)
-		if err != nil && !(errors.Is(err, doltdb.ErrUpToDate) || errors.Is(err, doltdb.ErrIsAhead) || errors.Is(err, doltdb.ErrNoCommonAncestor)) {
-			c.Violation("c19/can-ff/error", fmt.Sprintf("%s: DoltDB.CanFastForward(%s@%d→%d) failed: %v", name, id, a, bb, err), wit(a, bb, nil))
-		} else if can != want {
-			c.Violation("c19/can-ff/wrong", fmt.Sprintf("%s: DoltDB.CanFastForward(%s@%d→%d) = %v (err %v) but ancestor relation says %v", name, id, a, bb, can, err, want), wit(a, bb, nil))
-		}
-		cnt["c19.ff.branch_checked"]++
+		e.branchCanFF(id, bb)
 	}
 	for t := 0; t < 24; t++ {
 		a := r.Intn(len(m.C))
@@ -218,28 +128,7 @@ func c19One(c *rig.Ctx, i int) map[string]int {
 		if t%2 == 0 {
 			bb = pickRelated(r, m, a)
 		}
-		id := fmt.Sprintf("refs/heads/scratch%d", t)
-		ds, err := rdb.db.SetHead(bg, datas.NewHeadlessDataset(rdb.db, id), b.addr[a], "")
-		rig.Must(err)
-		ds2, err := rdb.db.FastForward(bg, ds, b.addr[bb], "", false)
-		want := m.isAnc(a, bb)
-		switch {
-		case err == nil:
-			got, _ := ds2.MaybeHeadAddr()
-			if !want {
-				c.Violation("c19/fast-forward/moved-to-non-descendant", fmt.Sprintf("%s: FastForward of a branch at %d to %d succeeded but %d is not an ancestor of %d", name, a, bb, a, bb), wit(a, bb, nil))
-			} else if got != b.addr[bb] {
-				c.Violation("c19/fast-forward/wrong-head", fmt.Sprintf("%s: FastForward %d→%d succeeded but head is %s", name, a, bb, idxName(b, got)), wit(a, bb, nil))
-			}
-			cnt["c19.ff.real_fastforward_ok"]++
-		case errors.Is(err, datas.ErrMergeNeeded):
-			if want {
-				c.Violation("c19/fast-forward/refused-descendant", fmt.Sprintf("%s: FastForward of a branch at %d to its descendant %d was refused (ErrMergeNeeded)", name, a, bb), wit(a, bb, nil))
-			}
-			cnt["c19.ff.real_fastforward_refused"]++
-		default:
-			c.Violation("c19/fast-forward/error", fmt.Sprintf("%s: FastForward %d→%d failed: %v", name, a, bb, err), wit(a, bb, nil))
-		}
+		e.realFF(fmt.Sprintf("refs/heads/scratch%d", t), a, bb)
 	}
 
 	// ancestor specs
@@ -248,6 +137,179 @@ func c19One(c *rig.Ctx, i int) map[string]int {
 		c.Sample(map[string]any{"case": name, "stats": st, "parents": m.C})
 	}
 	return cnt
+}
+
+
+// c19Env carries one built DAG and its handles; pair() applies every merge-base / fast-forward oracle to one
+// ordered pair of commits.
+type c19Env struct {
+	c         *rig.Ctx
+	name      string
+	m         *mDAG
+	b         *builtDAG
+	rdb, rdb2 *realDB
+	ddb       *doltdb.DoltDB
+	dc, dc2   []*datas.Commit
+	hc        []*doltdb.Commit
+	cnt       map[string]int
+	dagWit    any
+	res       map[[2]int]int // index of the returned base, -1 none, -2 error
+}
+
+func (e *c19Env) wit(a, bb int, extra map[string]any) map[string]any {
+	w := map[string]any{"dag": e.dagWit, "a": a, "b": bb, "height_a": e.m.height[a], "height_b": e.m.height[bb]}
+	for k, v := range extra {
+		w[k] = v
+	}
+	return w
+}
+
+// straddles reports whether two heights lie in different 256-blocks (the closure key's height prefix is
+// little-endian: byte-wise and numeric order differ exactly across these boundaries).
+func straddles(h1, h2 int) bool { return h1/256 != h2/256 }
+
+func (e *c19Env) pair(a, bb int) {
+	c, name, m, b, cnt, rdb, rdb2, dc, dc2, hc := e.c, e.name, e.m, e.b, e.cnt, e.rdb, e.rdb2, e.dc, e.dc2, e.hc
+	wit := e.wit
+	if _, done := e.res[[2]int{a, bb}]; done {
+		return
+	}
+	e.res[[2]int{a, bb}] = -2
+	cnt["c19.pairs"]++
+	best := m.bestCommon(a, bb)
+	if straddles(m.height[a], m.height[bb]) {
+		cnt["c19.pairs.straddling_a_multiple_of_256"]++
+	} else if len(best) > 0 && straddles(m.height[best[0]], m.height[a]) {
+		cnt["c19.pairs.base_below_a_multiple_of_256"]++
+	}
+	h, ok, err := datas.FindCommonAncestor(bg, dc[a], dc[bb], rdb.vs, rdb.vs, rdb.ns, rdb.ns)
+	if err != nil {
+		c.Violation("c19/merge-base/error", fmt.Sprintf("%s: FindCommonAncestor(%d,%d) failed: %v", name, a, bb, err), wit(a, bb, nil))
+		return
+	}
+	switch {
+	case len(best) == 0:
+		cnt["c19.pairs.none_expected"]++
+	case len(best) > 1:
+		cnt["c19.pairs.multiple_best_candidates"]++
+	}
+	if len(best) > 0 && best[0] != a && best[0] != bb {
+		cnt["c19.pairs.base_is_proper_ancestor_of_both"]++
+	}
+	if !ok {
+		e.res[[2]int{a, bb}] = -1
+		if len(best) > 0 {
+			c.Violation("c19/merge-base/none-but-exists", fmt.Sprintf("%s: FindCommonAncestor(%d,%d) (heights %d,%d) found none; common ancestors of maximal height %d: %v", name, a, bb, m.height[a], m.height[bb], m.height[best[0]], best), wit(a, bb, map[string]any{"best": best}))
+		}
+	} else {
+		x, known := b.idx[h]
+		switch {
+		case !known:
+			c.Violation("c19/merge-base/not-a-commit-of-the-graph", fmt.Sprintf("%s: FindCommonAncestor(%d,%d) = %s which is no commit of the graph", name, a, bb, h), wit(a, bb, nil))
+		case !(m.isAnc(x, a) && m.isAnc(x, bb)):
+			e.res[[2]int{a, bb}] = x
+			c.Violation("c19/merge-base/not-common-ancestor", fmt.Sprintf("%s: FindCommonAncestor(%d,%d) = %d which is not an ancestor of both", name, a, bb, x), wit(a, bb, map[string]any{"got": x, "best": best}))
+		case m.height[x] != m.height[best[0]]:
+			e.res[[2]int{a, bb}] = x
+			c.Violation("c19/merge-base/not-highest", fmt.Sprintf("%s: FindCommonAncestor(%d,%d) = %d (height %d) but common ancestor(s) %v have height %d", name, a, bb, x, m.height[x], best, m.height[best[0]]), wit(a, bb, map[string]any{"got": x, "best": best}))
+		default:
+			e.res[[2]int{a, bb}] = x
+		}
+	}
+	// second run through a fresh handle: the choice is deterministic
+	h2, ok2, err2 := datas.FindCommonAncestor(bg, dc2[a], dc2[bb], rdb2.vs, rdb2.vs, rdb2.ns, rdb2.ns)
+	if err2 != nil || ok2 != ok || h2 != h {
+		c.Violation("c19/merge-base/nondeterministic", fmt.Sprintf("%s: FindCommonAncestor(%d,%d) = (%s,%v) and on a second run through a fresh handle (%s,%v,%v)", name, a, bb, h, ok, h2, ok2, err2), wit(a, bb, nil))
+	}
+	// doltdb layer
+	oc, err := doltdb.GetCommitAncestor(bg, hc[a], hc[bb])
+	switch {
+	case err != nil && errors.Is(err, doltdb.ErrNoCommonAncestor):
+		if ok {
+			c.Violation("c19/doltdb-merge-base/differs", fmt.Sprintf("%s: doltdb.GetCommitAncestor(%d,%d) reports none, datas.FindCommonAncestor %s", name, a, bb, idxName(b, h)), wit(a, bb, nil))
+		}
+	case err != nil:
+		c.Violation("c19/doltdb-merge-base/error", fmt.Sprintf("%s: doltdb.GetCommitAncestor(%d,%d) failed: %v", name, a, bb, err), wit(a, bb, nil))
+	default:
+		if !ok || oc.Addr != h {
+			c.Violation("c19/doltdb-merge-base/differs", fmt.Sprintf("%s: doltdb.GetCommitAncestor(%d,%d) = %s, datas.FindCommonAncestor = (%s,%v)", name, a, bb, idxName(b, oc.Addr), idxName(b, h), ok), wit(a, bb, nil))
+		}
+		cnt["c19.pairs.doltdb_compared"]++
+	}
+	// fast-forward predicate
+	can, err := hc[a].CanFastForwardTo(bg, hc[bb])
+	want := m.isAnc(a, bb)
+	if err != nil && !(errors.Is(err, doltdb.ErrUpToDate) || errors.Is(err, doltdb.ErrIsAhead) || errors.Is(err, doltdb.ErrNoCommonAncestor)) {
+		c.Violation("c19/can-ff/error", fmt.Sprintf("%s: CanFastForwardTo(%d→%d) failed: %v", name, a, bb, err), wit(a, bb, nil))
+	} else if can != want {
+		c.Violation("c19/can-ff/wrong", fmt.Sprintf("%s: CanFastForwardTo(%d→%d) (heights %d→%d) = %v (err %v) but ancestor relation says %v", name, a, bb, m.height[a], m.height[bb], can, err, want), wit(a, bb, nil))
+	}
+	if want {
+		cnt["c19.ff.can_expected_true"]++
+	} else {
+		cnt["c19.ff.can_expected_false"]++
+	}
+}
+
+// symmetry compares the answers for (a,b) and (b,a) wherever both were evaluated.
+func (e *c19Env) symmetry() {
+	for k, v := range e.res {
+		a, bb := k[0], k[1]
+		if a >= bb {
+			continue
+		}
+		w, both := e.res[[2]int{bb, a}]
+		if !both {
+			continue
+		}
+		if v != -2 && w != -2 && v != w {
+			e.c.Violation("c19/merge-base/asymmetric", fmt.Sprintf("%s: FindCommonAncestor(%d,%d) = %d but FindCommonAncestor(%d,%d) = %d", e.name, a, bb, v, bb, a, w), e.wit(a, bb, nil))
+		}
+		e.cnt["c19.pairs.symmetry_checked"]++
+	}
+}
+
+// branchCanFF checks DoltDB.CanFastForward of the branch dataset |id| to commit bb.
+func (e *c19Env) branchCanFF(id string, bb int) {
+	a := e.b.heads[id]
+	can, err := e.ddb.CanFastForward(bg, ref.NewBranchRef(id), e.hc[bb])
+	want := e.m.isAnc(a, bb)
+	if err != nil && !(errors.Is(err, doltdb.ErrUpToDate) || errors.Is(err, doltdb.ErrIsAhead) || errors.Is(err, doltdb.ErrNoCommonAncestor)) {
+		e.c.Violation("c19/can-ff/error", fmt.Sprintf("%s: DoltDB.CanFastForward(%s@%d→%d) failed: %v", e.name, id, a, bb, err), e.wit(a, bb, nil))
+	} else if can != want {
+		e.c.Violation("c19/can-ff/wrong", fmt.Sprintf("%s: DoltDB.CanFastForward(%s@%d→%d) = %v (err %v) but ancestor relation says %v", e.name, id, a, bb, can, err, want), e.wit(a, bb, nil))
+	}
+	e.cnt["c19.ff.branch_checked"]++
+}
+
+// realFF puts a scratch branch at commit a and fast-forwards it to bb through Database.FastForward.
+func (e *c19Env) realFF(id string, a, bb int) {
+	c, name, m, b, cnt, rdb := e.c, e.name, e.m, e.b, e.cnt, e.rdb
+	wit := e.wit
+	ds, err := rdb.db.SetHead(bg, datas.NewHeadlessDataset(rdb.db, id), b.addr[a], "")
+	rig.Must(err)
+	ds2, err := rdb.db.FastForward(bg, ds, b.addr[bb], "", false)
+	want := m.isAnc(a, bb)
+	if straddles(m.height[a], m.height[bb]) {
+		cnt["c19.ff.real_fastforward_straddling_256"]++
+	}
+	switch {
+	case err == nil:
+		got, _ := ds2.MaybeHeadAddr()
+		if !want {
+			c.Violation("c19/fast-forward/moved-to-non-descendant", fmt.Sprintf("%s: FastForward of a branch at %d to %d succeeded but %d is not an ancestor of %d", name, a, bb, a, bb), wit(a, bb, nil))
+		} else if got != b.addr[bb] {
+			c.Violation("c19/fast-forward/wrong-head", fmt.Sprintf("%s: FastForward %d→%d succeeded but head is %s", name, a, bb, idxName(b, got)), wit(a, bb, nil))
+		}
+		cnt["c19.ff.real_fastforward_ok"]++
+	case errors.Is(err, datas.ErrMergeNeeded):
+		if want {
+			c.Violation("c19/fast-forward/refused-descendant", fmt.Sprintf("%s: FastForward of a branch at %d (height %d) to its descendant %d (height %d) was refused (ErrMergeNeeded)", name, a, m.height[a], bb, m.height[bb]), wit(a, bb, nil))
+		}
+		cnt["c19.ff.real_fastforward_refused"]++
+	default:
+		c.Violation("c19/fast-forward/error", fmt.Sprintf("%s: FastForward %d→%d failed: %v", name, a, bb, err), wit(a, bb, nil))
+	}
 }
 
 func pickRelated(r *rand.Rand, m *mDAG, a int) int {
